@@ -87,6 +87,16 @@ impl MulticastGroups {
     }
 }
 
+#[cfg(feature = "verif-hooks")]
+impl MulticastGroups {
+    pub(crate) fn verif_members_on(&self, host: IpAddr) -> usize {
+        self.0
+            .values()
+            .map(|members| members.iter().filter(|m| m.ip() == host).count())
+            .sum()
+    }
+}
+
 struct Rx {
     recv: mpsc::Receiver<(Datagram, SocketAddr)>,
     /// A buffered received message.
